@@ -521,7 +521,7 @@ class ConcatScenario(BaseScenario):
         groups = sorted(w.groups)
         g = r.choice(groups)
         dh = "B" if ("B" in w.ws and r.random() < 0.7) else w.groups[g]["h"]
-        return {"g": g, "gfb": groups.index(g), "dh": dh, "blind": r.random() < 0.35}
+        return {"g": g, "gfb": groups.index(g), "dh": dh, "blind": r.random() < 0.35, "fresh_source": r.random() < 0.4}
 
     def gen_table(self, w, r):
         t = w.pick_hole(r, lambda h: bool(h["pgs"]))
@@ -1180,6 +1180,17 @@ class ConcatScenario(BaseScenario):
         again = f"{dh}:{guid_plain}" in w.groups or any(hu in w.all_ids(dh) for hu in w.groups[g]["holes"])
         if again and dh != w.groups[g]["h"] and w.cfg.get("avoid_known"):
             return "skipped"   # known finding: a second cross-workspace copy of a drillhole group raises (identifiers in use)
+        if op.get("fresh_source") and dh != w.groups[g]["h"] and self.prop in ("C12", "C04"):
+            # the source workspace was just opened and nothing of the group has been read yet (what a copy takes along must not
+            # depend on what the caller happened to look at before)
+            from geoh5py import Workspace
+
+            src_h = w.groups[g]["h"]
+            w.slots.clear()
+            w.ws[src_h].close()
+            w.ws[src_h] = Workspace(w.paths[src_h], mode="r+")
+            w._cache = None
+            w.sim.probe("copy_from_unread_source")
         group = w.group_ent(g)
         target = w.ws[dh]
         # (a second copy into a workspace that already holds the holes' identifiers raises: C12's known finding, whichever check runs)
